@@ -391,7 +391,9 @@ fn one_sequence(test_repo: &TestRepo, out: &mut Out, r: &mut Rng, src: Source, s
         run.out.tally("discarded", "commit-id-collision");
         return;
     }
-    let req = format!("run {}", run.ops.join(" "));
+    // `runlow`: the driver does not monitor the premise of `rebase_inv_partial` (the low-level stream
+    // breaks coverage on purpose)
+    let req = format!("{} {}", if coverage { "run" } else { "runlow" }, run.ops.join(" "));
     let resp = match &res { Ok(()) => run.trace.join(" "), Err(_) => format!("{} panic", run.trace.join(" ")).trim().to_string() };
     run.out.case(&req, &resp);
     run.out.tally("stream", stream);
